@@ -1,7 +1,7 @@
 #!/venv/bin/python
 """Harvest / confirm / evaluate seeded changes.
 
-  tools/seeded.py harvest C03          copy /tmp/mut/C03/_mutants/m* to seeded/C03-m*/
+  tools/seeded.py harvest /tmp/mut3 r3 C03     copy /tmp/mut3/C03/_mutants/m* to seeded/C03-r3m*/
   tools/seeded.py run C03-m1 [tier] [extra check ids...]
         scratch worktree of /repo + patch; demo on /repo (expect 0) and on the mutant (expect 1);
         ./check <property> against the mutant with outputs redirected; result stored in
@@ -17,11 +17,14 @@ def sh(cmd, **kw):
     return subprocess.run(cmd, shell=isinstance(cmd, str), capture_output=True, text=True, **kw)
 
 
-def harvest(prop):
-    for d in sorted(glob.glob(f"/tmp/mut/{prop}/_mutants/m*")):
+def harvest(prop, root="/tmp/mut", tag=""):
+    for d in sorted(glob.glob(f"{root}/{prop}/_mutants/m*")):
         if not os.path.isdir(d):
             continue
-        dst = os.path.join(ROOT, "seeded", f"{prop}-{os.path.basename(d)}")
+        dst = os.path.join(ROOT, "seeded", f"{prop}-{tag}{os.path.basename(d)}")
+        if os.path.exists(dst):
+            print("exists, left alone", dst)
+            continue
         os.makedirs(dst, exist_ok=True)
         for f in ("patch.diff", "demo.py", "meta.json"):
             if os.path.exists(os.path.join(d, f)):
@@ -95,8 +98,9 @@ def run(sid, tier="quick", extra=()):
 
 if __name__ == "__main__":
     if sys.argv[1] == "harvest":
-        for p in sys.argv[2:]:
-            harvest(p)
+        # harvest <root> <tag> <property>...
+        for p in sys.argv[4:]:
+            harvest(p, sys.argv[2], sys.argv[3])
     elif sys.argv[1] == "run":
         sid = sys.argv[2]
         tier = sys.argv[3] if len(sys.argv) > 3 else "quick"
